@@ -3,6 +3,7 @@ module verifharness
 go 1.24.0
 
 require (
+	github.com/virel-project/go-randomvirel v1.1.5
 	github.com/virel-project/virel-blockchain/v3 v3.0.0
 	github.com/zeebo/blake3 v0.2.4
 )
@@ -13,6 +14,7 @@ require (
 	github.com/sasha-s/go-deadlock v0.3.5 // indirect
 	golang.org/x/crypto v0.40.0 // indirect
 	golang.org/x/sys v0.34.0 // indirect
+	golang.org/x/term v0.33.0 // indirect
 )
 
 replace github.com/virel-project/virel-blockchain/v3 => /repo
